@@ -61,4 +61,7 @@ package sqlparser
 // Completeness of the tree walk (C16: "whatever their position in the statement"): every node type hands every child that
 // is itself a node (or a list of nodes) to Walk on every successful path of its walkSubtree - so no literal position is
 // out of the normalizer's reach. Data-flow check over the SSA of all walkSubtree methods; exceptions are listed.
-//@ structural walkers-visit-every-child props C16 : walks-children SQLNode walkSubtree Walk
+// Not walked and not able to hold a literal (identifier lists, table names, flags) - listed so that the choice is visible:
+//@ structural walkers-visit-every-child props C16 : walks-children SQLNode walkSubtree Walk except AliasedTableExpr.Partitions,Delete.Partitions,Insert.Partitions,Delete.Targets,ColumnType.Autoincrement,ColumnType.NotNull,ColumnType.Unsigned,ColumnType.Zerofill,DDL.VindexCols,Show.OnTable,VindexSpec.Type,IndexDefinition.Info
+// Not walked although they can hold literals (DDL column defaults/comments/sizes, CONVERT type sizes, SHOW ... WHERE, the
+// expression inside a cast kept as UnknownVal): genuine, recorded per field in /verif/known_findings.json (F30).
